@@ -164,6 +164,8 @@ def _start_server():
             time.sleep(block_ms / 1000.0)  # a handler that hogs the loop
         if delay_ms:
             await asyncio.sleep(delay_ms / 1000.0)
+        if fail == 'TimeoutError':  # a type the transport itself catches around its own reads
+            raise TimeoutError('handler failed', token)
         if fail:
             raise HandlerError('handler failed', token)
         return ('echo', token, payload)
@@ -189,7 +191,7 @@ def e2e_spec(draw):
         # burst: many small requests in flight at once over few connections (request ids are matched under the heaviest multiplexing)
         # (slow requests stay in flight while the same threads issue many short ones after them)
         nreq = draw(st.integers(40, 120))
-        reqs = [{'payload': draw(SMALL_OBJ), 'delay_ms': draw(st.sampled_from([0, 1, 1, 5, 5, 60, 200])), 'block_ms': 0, 'fail': draw(st.integers(0, 9)) == 0} for _ in range(nreq)]
+        reqs = [{'payload': draw(SMALL_OBJ), 'delay_ms': draw(st.sampled_from([0, 1, 1, 5, 5, 60, 200])), 'block_ms': 0, 'fail': draw(st.sampled_from([False] * 9 + [True, 'TimeoutError']))} for _ in range(nreq)]
         nthreads = draw(st.integers(3, 8))
         owners = [draw(st.sampled_from(list(range(nthreads)) * 3 + [nthreads])) for _ in range(nreq)]
         return {'reqs': reqs, 'conns': draw(st.sampled_from([1, 1, 2])), 'nthreads': nthreads, 'owners': owners, 'gap_ms': 0}
@@ -200,7 +202,7 @@ def e2e_spec(draw):
         payload = draw(big_bytes()) if big else draw(SMALL_OBJ)
         if draw(st.integers(0, 30)) == 0:
             payload = b'z' * draw(st.sampled_from([3 << 20, 8 << 20]))
-        reqs.append({'payload': payload, 'delay_ms': draw(st.sampled_from([0, 0, 1, 5, 20, 60])), 'block_ms': draw(st.sampled_from([0] * 12 + [150, 400])), 'fail': draw(st.integers(0, 5)) == 0})
+        reqs.append({'payload': payload, 'delay_ms': draw(st.sampled_from([0, 0, 1, 5, 20, 60])), 'block_ms': draw(st.sampled_from([0] * 12 + [150, 400])), 'fail': draw(st.sampled_from([False] * 10 + [True, 'TimeoutError']))})
     nthreads = draw(st.integers(1, min(8, nreq)))
     owners = [draw(st.integers(0, nthreads)) for _ in range(nreq)]  # == nthreads: part of the stream
     return {'reqs': reqs, 'conns': draw(st.integers(1, 4)), 'nthreads': nthreads, 'owners': owners, 'gap_ms': draw(st.sampled_from([0, 0, 2, 10]))}
@@ -259,7 +261,7 @@ def run_e2e(spec):
     def judge(i, kind, y):
         r = spec['reqs'][i]
         if r['fail']:
-            if kind != 'exc' or type(y).__name__ != 'HandlerError' or tuple(y.args) != ('handler failed', i):
+            if kind != 'exc' or type(y).__name__ != ('TimeoutError' if r['fail'] == 'TimeoutError' else 'HandlerError') or tuple(y.args) != ('handler failed', i):
                 raise Violation('wrong_response', f"request {i} (handler raises): got {kind} {_describe(y)}", signature=['wrong_response', 'exc'])
             if not is_remote_exception(y) or 'echo' not in get_remote_traceback(y):
                 raise Violation('traceback_lost', f'request {i}: handler exception arrived without the server-side traceback', signature=['traceback_lost'])
